@@ -158,46 +158,29 @@ impl<T: Block> Chain<T> {
     //@end
 
     /// proved in unit chain_query (Chain::contains_item)
-    #[verifier::external_body]
+    //@stub chain_query :: contains_item
     pub fn contains_item(&self, item: T::Item) -> (r: bool)
-        requires canonical(self.0@),
-        ensures r == in_view(self.0@, T::val(item)),
-    { unimplemented!() }
+    //@end
 
     /// proved in unit chain_query (Chain::is_encompassed, R4)
-    #[verifier::external_body]
+    //@stub chain_query :: Chain<T> :: is_encompassed
     pub fn is_encompassed(&self, other: &Chain<T>) -> (r: bool)
-        requires canonical(self.0@), canonical(other.0@),
-        ensures r == view_subset(self.0@, other.0@),
-    { unimplemented!() }
+    //@end
 
     /// proved in unit chain_query (PartialEq for Chain<T> :: eq, emitted there as eq_impl)
-    #[verifier::external_body]
+    //@stub chain_query :: eq_impl
     pub fn eq_impl(&self, other: &Chain<T>) -> (r: bool)
-        requires canonical(self.0@), canonical(other.0@),
-        ensures r == view_eq(self.0@, other.0@),
-    { unimplemented!() }
+    //@end
 
     /// proved in unit chain_trim (Chain::trim, R4)
-    #[verifier::external_body]
+    //@stub chain_trim :: trim
     pub fn trim(&self, other: &Chain<T>) -> (r: Result<(), OwnedChain<T>>)
-        requires canonical(self.0@), canonical(other.0@),
-        ensures
-            r.is_ok() ==> view_subset(self.0@, other.0@),
-            r.is_err() ==> canonical(r.unwrap_err().0@)
-                && forall|x: int| in_view(r.unwrap_err().0@, x) <==> (in_view(self.0@, x) && in_view(other.0@, x)),
-            // completeness of Ok, except: both chains empty returns Err(empty chain) (other is tested first)
-            view_subset(self.0@, other.0@) && (self.0@.len() > 0 || other.0@.len() > 0) ==> r.is_ok(),
-    { unimplemented!() }
+    //@end
 
     /// proved in unit chain_diff (Chain::difference, R4)
-    #[verifier::external_body]
+    //@stub chain_diff :: difference
     pub fn difference(&self, other: &Chain<T>) -> (r: OwnedChain<T>)
-        requires canonical(self.0@), canonical(other.0@),
-        ensures
-            canonical(r.0@),
-            forall|x: int| in_view(r.0@, x) <==> (in_view(self.0@, x) && !in_view(other.0@, x)),
-    { unimplemented!() }
+    //@end
 }
 
 impl<T: Block> ops::Deref for Chain<T> {
@@ -219,13 +202,9 @@ impl<T: Block> OwnedChain<T> {
 
     /// proved in unit chain_build (iter::FromIterator<T> for OwnedChain<T> :: from_iter, emitted there
     /// as from_iter_impl with the R12 call shape `iter: Vec<T>`)
-    #[verifier::external_body]
+    //@stub chain_build :: from_iter_impl
     pub fn from_iter(iter: Vec<T>) -> (r: Self)
-        requires blocks_ok(iter@),
-        ensures
-            canonical(r.0@),
-            forall|x: int| #![trigger in_view(r.0@, x)] #![trigger in_view(iter@, x)] in_view(r.0@, x) <==> in_view(iter@, x),
-    { unimplemented!() }
+    //@end
 }
 
 impl<T: Block> ops::Deref for OwnedChain<T> {
